@@ -149,3 +149,42 @@ pub fn path_shape(p: &str) -> String {
 pub fn hex(v: u64) -> String {
     format!("{v:016x}")
 }
+
+/// A tracing subscriber that wants everything and keeps nothing: with it installed, every
+/// `debug!`/`error!`/`#[instrument]` field expression in the library and its dependencies is
+/// evaluated and formatted — the "diagnostics enabled" configuration of a deployment.
+pub struct DiagSink;
+
+struct FmtVisit(usize);
+impl tracing::field::Visit for FmtVisit {
+    fn record_debug(&mut self, _field: &tracing::field::Field, value: &dyn std::fmt::Debug) {
+        self.0 += format!("{value:?}").len();
+    }
+}
+
+impl tracing::Subscriber for DiagSink {
+    fn enabled(&self, _m: &tracing::Metadata<'_>) -> bool {
+        true
+    }
+    fn new_span(&self, attrs: &tracing::span::Attributes<'_>) -> tracing::span::Id {
+        let mut v = FmtVisit(0);
+        attrs.record(&mut v);
+        tracing::span::Id::from_u64(1)
+    }
+    fn record(&self, _span: &tracing::span::Id, values: &tracing::span::Record<'_>) {
+        let mut v = FmtVisit(0);
+        values.record(&mut v);
+    }
+    fn record_follows_from(&self, _span: &tracing::span::Id, _follows: &tracing::span::Id) {}
+    fn event(&self, event: &tracing::Event<'_>) {
+        let mut v = FmtVisit(0);
+        event.record(&mut v);
+    }
+    fn enter(&self, _span: &tracing::span::Id) {}
+    fn exit(&self, _span: &tracing::span::Id) {}
+}
+
+/// Runs `f` with diagnostics enabled (thread-local default subscriber) or not.
+pub fn with_diag<R>(on: bool, f: impl FnOnce() -> R) -> R {
+    if on { tracing::subscriber::with_default(DiagSink, f) } else { f() }
+}
